@@ -573,6 +573,8 @@ structure CS where
   threads : List Thread
   out : Array String := #[]
   fuel : Nat
+  /-- the threads share arena value 0 by reference: no clone to drop at the end of a program -/
+  noclone : Bool := false
 
 def ordStr : Gen.Ord → String
   | .relaxed => "rlx" | .acquire => "acq" | .release => "rel" | .acqRel => "acqrel" | .seqCst => "sc"
@@ -735,7 +737,7 @@ partial def advance (x : CS) (t : Thread) : CS :=
     | [] =>
       -- the thread drops its own clone of the arena, unless a live borrowed handle was allocated through it
       let borrows := x.via.any (fun (h, tid) => tid == t.tid && (x.sess.find h).isSome)
-      if t.exiting || borrows then setThread x { t with finished := true }
+      if t.exiting || borrows || x.noclone then setThread x { t with finished := true }
       else advance x { t with cur := some (do dropArenaC; pure OpOut.exit), exiting := true }
     | op :: rest =>
       let p := mkOp x op
@@ -820,6 +822,7 @@ def runCase (lines : List String) : Array String := Id.run do
   let mut threads : List Thread := []
   let mut sched : List (Nat × Bool) := []
   let mut budget := 3000
+  let mut noclone := false
   let mut bad := false
   for line in lines do
     let toks := (line.trimAscii.toString.splitOn " ").filter (· != "")
@@ -850,6 +853,7 @@ def runCase (lines : List String) : Array String := Id.run do
         if e.endsWith "f" then (e.dropEnd 1).toString.toNat?.map (·, true) else e.toNat?.map (·, false))
     | ["budget", n] => budget := n.toNat?.getD 3000
     | ["crash"] => pure ()
+    | ["noclone"] => noclone := true
     | _ => out := out.push "bad-op"
   match sess with
   | none => return out
@@ -857,8 +861,9 @@ def runCase (lines : List String) : Array String := Id.run do
     if bad then return out
     let thrs := threads.mergeSort (fun a b => a.tid ≤ b.tid)
     -- every thread holds its own clone of the arena, taken before the hook is armed
-    let sh : Shared := { st := s.st, refs := s.refs + thrs.length }
-    let mut x : CS := { sess := s, sh := sh, fills := [], threads := thrs, out := out, fuel := 4000 }
+    -- (with `noclone` they share arena value 0 by reference instead)
+    let sh : Shared := { st := s.st, refs := s.refs + (if noclone then 0 else thrs.length) }
+    let mut x : CS := { sess := s, sh := sh, fills := [], threads := thrs, out := out, fuel := 4000, noclone := noclone }
     for t in thrs do
       x := advance x t
     for (tid, sp) in sched do
